@@ -226,7 +226,18 @@ Fixpoint chain_collect (k : str * str * str * option str) (cursor : option str)
   | _, _ => (accI, accP, false, maxpage, 0%nat)
   end.
 
-(* codes: 1 items differ from the matching names, 2 collapsed prefixes differ, 3 page larger than maxResults *)
+(* codes: 1 items differ from the matching names, 2 collapsed prefixes differ, 3 page larger than maxResults,
+   4 a listing of a bucket that does not exist (well-formed page size) is not answered 404 *)
+Definition missing_bucket_code (s : state) (b : str) (m : option str) (i : N) (o : resp) : list (N * N) :=
+  let size_ok := match m with
+                 | None => true
+                 | Some ms => match parse_int ms with Some z => (1 <=? z)%Z | None => false end
+                 end in
+  match get_bucket s b with
+  | None => if size_ok && negb (Z.eqb (r_status o) 404) then [(i, 4%N)] else []
+  | Some _ => []
+  end.
+
 Fixpoint c11_run (fuel : nat) (s : state) (i : N) (rs : list req) (obs : list resp) : list (N * N) :=
   match fuel with
   | O => []
@@ -251,7 +262,9 @@ Fixpoint c11_run (fuel : nat) (s : state) (i : N) (rs : list req) (obs : list re
                 | None => []
                 end
               else [] in
-            here ++ c11_run f s' (i + 1)%N rs' obs'
+            here ++ missing_bucket_code s b m i o ++ c11_run f s' (i + 1)%N rs' obs'
+        | Some (b, _, _, m), Some _ =>
+            (missing_bucket_code s b m i o) ++ c11_run f s' (i + 1)%N rs' obs'
         | _, _ => c11_run f s' (i + 1)%N rs' obs'
         end
     | _, _ => []
